@@ -376,11 +376,33 @@ func ruleBUF1(c *Ctx) {
 				}
 				return []st{st2}, []st{st1}
 			}
-			if be, ok := e.(*ast.BinaryExpr); ok && nVar != nil && IdentObj(info, be.X) == nVar {
-				if v, isC := ConstI64(info, be.Y); isC && v == 0 && be.Op == token.GTR {
-					st1, st2 := s, s
-					st1.npos, st2.npos = triYes, triNo
-					return []st{st1}, []st{st2}
+			if be, ok := e.(*ast.BinaryExpr); ok && nVar != nil {
+				x, y, op := be.X, be.Y, be.Op
+				if IdentObj(info, y) == nVar { // 0 < n  ==  n > 0
+					x, y = y, x
+					switch op {
+					case token.LSS:
+						op = token.GTR
+					case token.GTR:
+						op = token.LSS
+					case token.LEQ:
+						op = token.GEQ
+					case token.GEQ:
+						op = token.LEQ
+					}
+				}
+				if IdentObj(info, x) == nVar {
+					if v, isC := ConstI64(info, y); isC {
+						st1, st2 := s, s
+						switch {
+						case v == 0 && op == token.GTR, v == 1 && op == token.GEQ, v == 0 && op == token.NEQ:
+							st1.npos, st2.npos = triYes, triNo
+							return []st{st1}, []st{st2}
+						case v == 0 && op == token.LEQ, v == 0 && op == token.EQL, v == 1 && op == token.LSS:
+							st1.npos, st2.npos = triNo, triYes
+							return []st{st1}, []st{st2}
+						}
+					}
 				}
 			}
 			return []st{s}, []st{s}
